@@ -83,6 +83,63 @@ func (pc *partCase) isGenuine(p *types.Part) bool {
 	return bytes.Equal(p.Bytes, g.Bytes) && auntsEqual(p.Proof.Aunts, g.Proof.Aunts)
 }
 
+// pathTree computes, with the tree shape of libs/crypto/merkle (left subtree = first (n+1)/2 leaves), the
+// interior nodes on the path of every leaf: for leaf i, nodes[i][k-1] holds the two child hashes of its
+// ancestor k levels above it (k = 1: its parent ... k = depth: the root). Subtree hashes are memoized.
+type pathTree struct {
+	leaves [][]byte
+	memo   map[[2]int][]byte
+}
+
+func newPathTree(leaves [][]byte) *pathTree {
+	return &pathTree{leaves: leaves, memo: map[[2]int][]byte{}}
+}
+
+func (t *pathTree) sub(start, n int) []byte {
+	if n == 1 {
+		return t.leaves[start]
+	}
+	if h, ok := t.memo[[2]int{start, n}]; ok {
+		return h
+	}
+	nl := (n + 1) / 2
+	h := merkle.SimpleHashFromTwoHashes(t.sub(start, nl), t.sub(start+nl, n-nl))
+	t.memo[[2]int{start, n}] = h
+	return h
+}
+
+// path returns the (left, right) child hashes of the ancestors of leaf i, lowest ancestor first.
+func (t *pathTree) path(i int) (nodes [][2][]byte) {
+	var rec func(start, n int)
+	rec = func(start, n int) {
+		if n == 1 {
+			return
+		}
+		nl := (n + 1) / 2
+		if i < start+nl {
+			rec(start, nl)
+		} else {
+			rec(start+nl, n-nl)
+		}
+		nodes = append(nodes, [2][]byte{t.sub(start, nl), t.sub(start+nl, n-nl)})
+	}
+	rec(0, len(t.leaves))
+	return
+}
+
+// nodePreimage: the byte string whose leaf hash (Keccak of the part bytes) equals the interior node hash
+// (Keccak of the two length-prefixed child hashes): the tree has no leaf/inner domain separation.
+// ok=false if that does not hold for this library version (then the class is skipped).
+func nodePreimage(children [2][]byte) (pre []byte, ok bool) {
+	for _, c := range children {
+		if len(c) != 32 {
+			return nil, false
+		}
+		pre = append(append(pre, 0x80+32), c...)
+	}
+	return pre, bytes.Equal(crypto.Keccak256(pre), merkle.SimpleHashFromTwoHashes(children[0], children[1]))
+}
+
 func cpAunts(a [][]byte) [][]byte {
 	out := make([][]byte, len(a))
 	for i := range a {
@@ -140,6 +197,11 @@ func newPartCase(cfg blockCfg, size int, other blockCfg, fullAlphabet bool) *par
 		return pc
 	}
 	zero := make([]byte, 32)
+	var leafHashes [][]byte
+	for _, g := range pc.genuine {
+		leafHashes = append(leafHashes, crypto.Keccak256(g.Bytes))
+	}
+	tree := newPathTree(leafHashes)
 	for i, g := range pc.genuine {
 		bz, au := []byte(g.Bytes), g.Proof.Aunts
 		f := func(class, what string, p *types.Part) { add(class, fmt.Sprintf("%s[%d]%s", class, i, what), p) }
@@ -189,6 +251,23 @@ func newPartCase(cfg blockCfg, size int, other blockCfg, fullAlphabet bool) *par
 		f("proof-extra-aunt", ":appended-zero", mkPart(i, bz, append(cpAunts(au), zero)))
 		f("proof-extra-aunt", ":prepended-zero", mkPart(i, bz, append([][]byte{zero}, cpAunts(au)...)))
 		f("proof-extra-aunt", ":appended-own-hash", mkPart(i, bz, append(cpAunts(au), crypto.Keccak256(bz))))
+		// proof shortened from either end
+		for k := 1; k <= len(au); k++ {
+			f("proof-truncated", fmt.Sprintf(":minus-lowest-%d", k), mkPart(i, bz, au[k:]))
+			f("proof-truncated", fmt.Sprintf(":minus-highest-%d", k), mkPart(i, bz, au[:len(au)-k]))
+		}
+		// the pre-image of an interior node on the path of i offered as part i (its "leaf hash" is that node's
+		// hash), with the proof shortened by the k aunts below that node, with the full proof, and shortened from the top
+		for k, node := range tree.path(i) {
+			pre, ok := nodePreimage(node)
+			if !ok || k+1 > len(au) {
+				continue
+			}
+			lvl := k + 1
+			f("interior-node-preimage", fmt.Sprintf(":level-%d,proof-minus-lowest-%d", lvl, lvl), mkPart(i, pre, au[lvl:]))
+			f("interior-node-preimage", fmt.Sprintf(":level-%d,full-proof", lvl), mkPart(i, pre, au))
+			f("interior-node-preimage", fmt.Sprintf(":level-%d,proof-minus-highest-%d", lvl, lvl), mkPart(i, pre, au[:len(au)-lvl]))
+		}
 		for j, o := range pc.genuine {
 			// large sets: only the neighbours, the sibling and the two ends (the full cross product is quadratic)
 			if n > 8 && j != i-1 && j != i+1 && j != i^1 && j != 0 && j != n-1 {
@@ -626,6 +705,7 @@ func checkMerkle(r *vk.Run, minTotal, maxTotal int) (cases, accepts int, crossTo
 			items = append(items, leaf(h))
 		}
 		root, proofs := merkle.SimpleProofsFromHashers(items)
+		ptree := newPathTree(leaves)
 		if !bytes.Equal(root, merkle.SimpleHashFromHashers(items)) {
 			r.Violation("merkle:proof-root-differs-from-tree-root", fmt.Sprintf("total %d", total), map[string]interface{}{"phase": "merkle", "total": total})
 		}
@@ -701,6 +781,34 @@ func checkMerkle(r *vk.Run, minTotal, maxTotal int) (cases, accepts int, crossTo
 					m = cpAunts(au)
 					m[k], m[k+1] = m[k+1], m[k]
 					try("aunts-swapped", i, total, leaves[i], m, false, map[string]interface{}{"index": i, "aunt": k})
+				}
+			}
+			// claimed leaf in {genuine leaf, every interior node on the path, another leaf} x every contiguous
+			// sub-proof aunts[a:b] (truncation from either end): only (genuine leaf, full proof) may verify
+			claimed := [][]byte{leaves[i]}
+			names := []string{"genuine-leaf"}
+			for k, node := range ptree.path(i) {
+				claimed = append(claimed, merkle.SimpleHashFromTwoHashes(node[0], node[1]))
+				names = append(names, fmt.Sprintf("interior-node-level-%d", k+1))
+			}
+			if total > 1 {
+				claimed = append(claimed, leaves[(i+1)%total])
+				names = append(names, "other-leaf")
+			}
+			for ci, lf := range claimed {
+				for a := 0; a <= len(au); a++ {
+					for b := a; b <= len(au); b++ {
+						if ci == 0 && a == 0 && b == len(au) {
+							continue
+						}
+						cl := "truncated-proof"
+						if ci > 0 && ci <= len(claimed)-1 && names[ci] != "other-leaf" {
+							cl = "interior-node-as-leaf"
+						} else if ci > 0 {
+							cl = "other-leaf-truncated-proof"
+						}
+						try(cl, i, total, lf, cpAunts(au[a:b]), false, map[string]interface{}{"index": i, "claimed": names[ci], "aunts_from": a, "aunts_to": b})
+					}
 				}
 			}
 			try("aunt-appended", i, total, leaves[i], append(cpAunts(au), make([]byte, 32)), false, map[string]interface{}{"index": i})
